@@ -8,8 +8,9 @@ package stream
 // list with an event time after W (nothing is fabricated, nothing at or below W is kept); every record produced is a
 // record of the old pending list with an event time at or below W.
 //@ func (*InternallyConsistentOutputStreamWrapper).Run$lit1
+//@   assumes forall(q, 0, len(pending), len(pending[q].Values) == len(pending[0].Values))
 //@   loop 1 invariant count: 0 <= $k && $k <= len(pending) && 0 <= afterWatermarkCount && afterWatermarkCount <= $k
-//@   loop 2 invariant kept: 0 <= $k && $k <= len(pending) && len(crossedOut) == len(pending) && forall(j, 0, len(newPending), newPending[j].EventTime.ns > watermark.ns && exists(q, 0, len(pending), sameRec(newPending[j], pending[q])))
+//@   loop 2 invariant kept: 0 <= $k && $k <= len(pending) && len(crossedOut) == len(pending) && newPending.base != pending.base && forall(j, 0, len(newPending), newPending[j].EventTime.ns > watermark.ns && exists(q, 0, len(pending), sameRec(newPending[j], pending[q])))
 //@   loop 2 invariant marked: forall(q, 0, $k, pending[q].EventTime.ns > watermark.ns ==> crossedOut[q])
 //@   loop 2 invariant frame: forall(q, 0, len(pending), sameRec(pending[q], old(pending[q]))) && len(pending) == old(len(pending))
 //@   loop 3 invariant marked: len(crossedOut) == len(pending) && forall(q, 0, len(pending), pending[q].EventTime.ns > watermark.ns ==> crossedOut[q])
@@ -19,3 +20,15 @@ package stream
 //@   ensures kept: result == nil ==> forall(j, 0, len(pending), pending[j].EventTime.ns > watermark.ns && exists(q, 0, old(len(pending)), sameRec(pending[j], old(pending[q]))))
 //@   ensures produced: forall(j, old(len(OUT)), len(OUT), exists(q, 0, old(len(pending)), sameRec(OUT[j], old(pending[q])) && old(pending[q]).EventTime.ns <= watermark.ns))
 //@   ensures nometa: len(OUTM) == old(len(OUTM))
+
+// The wrapper itself, for every history: records are only collected (nothing is produced on a record); a watermark
+// first releases what is due (sendPending...) and is then forwarded unchanged; other metadata is forwarded unchanged;
+// at the end of the stream everything still pending is released; errors propagate.
+//@ func (*InternallyConsistentOutputStreamWrapper).Run
+//@   assumes WatermarkMaxValue.ns == 9223372036854775807
+//@   stream 1 invariant meta: len(OUTM) == len(INM)
+//@   stream 1 step IN collected: stepErr == nil && len(OUT) == old(len(OUT)) && len(OUTM) == old(len(OUTM)) && len(pending) == old(len(pending)) + 1 && sameRec(pending[len(pending)-1], lastIn())
+//@   stream 1 step INM forward: stepErr == nil ==> len(OUTM) == old(len(OUTM)) + 1 && lastOutM() == lastInM() && outAtLastMeta() == len(OUT)
+//@   stream 1 step INM released: stepErr == nil && lastInM().Type == 0 ==> forall(j, 0, len(pending), pending[j].EventTime.ns > lastInM().Watermark.ns)
+//@   stream 1 step INM late: lastInM().Type == 0 ==> forall(j, old(len(OUT)), len(OUT), OUT[j].EventTime.ns <= lastInM().Watermark.ns)
+//@   ensures errprop: runErr != nil ==> result != nil
